@@ -273,7 +273,7 @@ def gen_firing_case(rng):
         'spec': spec,
         'targets': [f'T{i}' for i in range(nt)],
         'start': None,  # absolute instant, filled in by the shard loop (the shared clock only moves forward)
-        'start_skip': rng.randrange(0, 40 * 86400),
+        'start_skip': rng.randrange(0, 40 * 86400) + rng.choice([0, 0, 0.1, 0.25, 0.4, 0.499, 0.5, 0.75, 0.9]),  # timers are armed with round(): wake-ups land before or after the moment
         'horizon_days': 100 if kind == 'dom' else 23,
         'reloads': rng.choice([0, 0, 1, 2]),
         'new_target_at': rng.choice([None, None, 0.3, 0.6]),
